@@ -214,8 +214,11 @@ def load_known():
 
 
 def write_evidence(pid, ev):
-    os.makedirs(os.path.join(VERIF, 'evidence'), exist_ok=True)
-    p = os.path.join(VERIF, 'evidence', pid + '.json')
+    # evidence committed under /verif/evidence must come from /repo itself; runs against a scratch
+    # tree (VERIF_REPO=...) write elsewhere
+    edir = os.path.join(VERIF, 'evidence') if os.path.realpath(REPO) == '/repo' else os.path.join(VERIF, 'build', 'scratch-evidence')
+    os.makedirs(edir, exist_ok=True)
+    p = os.path.join(edir, pid + '.json')
     tmp = p + '.tmp.%d' % os.getpid()
     json.dump(ev, open(tmp, 'w'), indent=1)
     os.replace(tmp, p)
@@ -301,7 +304,9 @@ def decide(pid, pc, tier, seed, work, t0, finder_driver):
     known_labels = {k['obligation']: k for k in known}
     out_lines = []
     rc = 0
-    os.makedirs(os.path.join(VERIF, 'replay', pid), exist_ok=True)
+    rdir = os.path.join(VERIF, 'replay', pid)
+    shutil.rmtree(rdir, ignore_errors=True)
+    os.makedirs(rdir, exist_ok=True)
     sha = tree_sha()
     new_viol = []
     known_hit = []
